@@ -206,5 +206,22 @@ v('c17-lookup-first-record', 'C17', 'fire', B, "        if (cur->iface_ctx == if
 v('c17-global-used-elsewhere', 'C17', 'fire', B, "static void lltd_state_clear_icon_cache(lltd_iface_state *st) {\n    if (!st) {\n        return;\n    }", "static void lltd_state_clear_icon_cache(lltd_iface_state *st) {\n    if (!st) {\n        st = g_iface_states;\n    }\n    if (!st) {\n        return;\n    }", 'R17.2')
 v('c17-benign-const-table', 'C17', 'silent', T, "size_t setHostIdTLV(void *buffer, size_t offset, void *iface_ctx) {\n    uint8_t *base = (uint8_t *)buffer;", "static const uint8_t lltd_tlv_pad[2] = {0, 0};\n\nsize_t setHostIdTLV(void *buffer, size_t offset, void *iface_ctx) {\n    uint8_t *base = (uint8_t *)buffer;\n    (void)lltd_tlv_pad;")
 
+# ---- C04
+LP = 'os/linux/lltd_port.c'
+v('c04-speed-no-htonl', 'C04', 'fire', T, "    uint32_t wire = lltd_htonl(speed_100bps);", "    uint32_t wire = speed_100bps;", 'R04.a')
+v('c04-rssi-uint8', 'C04', 'fire', T, "    uint32_t wire = lltd_htonl((uint32_t)(int32_t)rssi_dbm);", "    uint32_t wire = lltd_htonl((uint32_t)(uint8_t)rssi_dbm);", 'R04.a')
+v('c04-ssid-clamp-64', 'C04', 'fire', T, "    size_t ssidSize = lltd_port_get_ssid(iface_ctx, base + offset + sizeof(*ssidTlv), 32);\n    if (ssidSize > 32) {\n        ssidSize = 32;\n    }", "    size_t ssidSize = lltd_port_get_ssid(iface_ctx, base + offset + sizeof(*ssidTlv), 64);\n    if (ssidSize > 64) {\n        ssidSize = 64;\n    }", 'R04.b')
+v('c04-wifi-gate-removed', 'C04', 'fire', B, "    if (lltd_port_get_wifi_mode(iface_ctx, &wifi_mode) == 0) {\n        offset += setWirelessTLV(buffer, offset, iface_ctx);", "    (void)lltd_port_get_wifi_mode(iface_ctx, &wifi_mode);\n    {\n        offset += setWirelessTLV(buffer, offset, iface_ctx);", 'R04.c')
+v('c04-linux-divisor-1000', 'C04', 'fire', LP, "    *out_speed_100bps = iface->LinkSpeed / 100U;", "    *out_speed_100bps = iface->LinkSpeed / 1000U;", 'R04.d')
+v('c04-flags-no-shift', 'C04', 'fire', T, "    uint32_t wire = lltd_htonl(flags << 16);", "    uint32_t wire = lltd_htonl(flags);", 'R04.a')
+v('c04-ipv4-swapped', 'C04', 'fire', T, "    lltd_port_memcpy(base + offset + sizeof(*hdr), &ipv4_be, sizeof(ipv4_be));", "    ipv4_be = lltd_htonl(ipv4_be);\n    lltd_port_memcpy(base + offset + sizeof(*hdr), &ipv4_be, sizeof(ipv4_be));", 'R04.a')
+v('c04-maxrate-no-htons', 'C04', 'fire', T, "    uint16_t wire = lltd_htons(units_0_5mbps);", "    uint16_t wire = units_0_5mbps;", 'R04.a')
+v('c04-perf-freq', 'C04', 'fire', T, "    uint64_t freq = 1000000;  // 1 MHz performance counter frequency", "    uint64_t freq = 10000000;  // 10 MHz", 'R04.a')
+v('c04-bswap32-bug', 'C04', 'fire', 'lltdResponder/lltdEndian.h', "           ((value & 0x00FF0000u) >> 8) |", "           ((value & 0x00FF0000u) >> 16) |", 'R04.a')
+v('c04-hostname-len-plus1', 'C04', 'fire', T, "    hostnameTLV->TLVLength = (uint8_t)written;", "    hostnameTLV->TLVLength = (uint8_t)(written + 1);", None)
+v('c04-linux-loopback-bit', 'C04', 'fire', LP, "        flags |= Config_TLV_InterfaceIsLoopback_Value;", "        flags |= Config_TLV_HasManagementURL_Value;", 'R04.d')
+v('c04-linux-mac-shifted', 'C04', 'fire', LP, "    memcpy(out_mac->a, iface->macAddress, sizeof(out_mac->a));", "    memcpy(out_mac->a, iface->macAddress + 1, sizeof(out_mac->a) - 1);", 'R04.d')
+v('c04-benign-manual-be32', 'C04', 'silent', T, "    uint32_t wire = lltd_htonl(ifType);\n    lltd_port_memcpy(base + offset + sizeof(*hdr), &wire, sizeof(wire));", "    uint8_t wire[4];\n    wire[0] = (uint8_t)(ifType >> 24);\n    wire[1] = (uint8_t)(ifType >> 16);\n    wire[2] = (uint8_t)(ifType >> 8);\n    wire[3] = (uint8_t)ifType;\n    lltd_port_memcpy(base + offset + sizeof(*hdr), wire, sizeof(wire));")
+
 json.dump(V, open(os.path.join(HERE, 'variants.json'), 'w'), indent=1)
 print(len(V), 'variants')
